@@ -9,6 +9,10 @@ package interp
 import (
 	"fmt"
 	"go/token"
+	"path/filepath"
+	"strings"
+
+	"golang.org/x/tools/go/ssa"
 )
 
 type threadKill struct{}
@@ -30,6 +34,8 @@ type sched struct {
 	killed      bool
 	finished    chan struct{}
 	shared      map[interface{}]bool
+	racy        map[*value]bool // cells of package-level variables (SharedGlobals): yield before and after a store
+	racyPrefix  string
 	switches    int
 }
 
@@ -225,6 +231,51 @@ func (i *interpreter) yieldShared(obj interface{}) {
 	if s.shared[obj] {
 		i.yield()
 	}
+}
+
+// racyCell reports whether addr is a cell of a package-level variable that
+// the harness put under SharedGlobals (and more than one thread exists).
+func (i *interpreter) racyCell(addr *value) bool {
+	s := i.path.sched
+	return s != nil && len(s.racy) > 0 && len(s.threads) > 1 && i.inInit == 0 && s.racy[addr]
+}
+
+// registerRacy records the cell of a package-level variable and, recursively,
+// the cells of its struct fields and array elements, and maps held directly.
+func (s *sched) registerRacy(addr *value) {
+	if addr == nil || s.racy[addr] {
+		return
+	}
+	s.racy[addr] = true
+	switch v := (*addr).(type) {
+	case structure:
+		for k := range v {
+			s.registerRacy(&v[k])
+		}
+	case array:
+		for k := range v {
+			s.registerRacy(&v[k])
+		}
+	case *omap:
+		if v != nil {
+			s.shared[v] = true
+		}
+	}
+}
+
+// racyGlobal decides whether a package-level variable falls under SharedGlobals:
+// declared in a package below the prefix, and not in a harness overlay file.
+func (i *interpreter) racyGlobal(g *ssa.Global) bool {
+	s := i.path.sched
+	if s == nil || s.racyPrefix == "" || g.Pkg == nil {
+		return false
+	}
+	path := g.Pkg.Pkg.Path()
+	if !strings.HasPrefix(path, s.racyPrefix) || strings.HasSuffix(path, "/internal/vxrt") {
+		return false
+	}
+	file := i.eng.Prog.Fset.Position(g.Pos()).Filename
+	return !strings.HasPrefix(filepath.Base(file), "zz_")
 }
 
 func (i *interpreter) checkFrozen(addr *value) {
